@@ -1,8 +1,10 @@
 import PngVerif.Proofs.Filter
+import PngVerif.Proofs.FilterImpl
 /-!
 # C14 — Scanline filters match the specification and are exact inverses
 
-Property theorems only (helper lemmas live in `PngVerif/Proofs/Filter.lean`).  Every statement is
+Property theorems only (helper lemmas live in `PngVerif/Proofs/Filter.lean` and
+`PngVerif/Proofs/FilterImpl.lean`).  Every statement is
 universally quantified over all bytes / all rows / all lengths; nothing here is bounded.
 -/
 namespace Png.C14
@@ -42,5 +44,90 @@ example : reconRow .paeth 2 [10, 20, 30, 40] (filtRow .paeth 2 [10, 20, 30, 40] 
   decide
 example : paethSpec 10 20 15 = 15 ∧ paethSpec 0 255 0 = 255 ∧ paethSpec 7 7 7 = 7 := by decide
 example : filtRow .avg 1 [255, 255] [255, 255] ≠ [255, 255] := by decide
+
+/-! ## The implementation-shaped functions equal the specification -/
+
+/-- `unfilter` (filter.rs:405-897: first-row substitution, `reduce` for bpp = 1, per-`bpp` chunk
+    loops carrying the previous output chunk and previous above-chunk) computes exactly the
+    specification's reconstruction: every filter type, every `bpp ≥ 1` (in particular the six
+    `BytesPerPixel` values), every row length that is a multiple of `bpp`, previous row absent
+    (first row of an image or pass) or of the same length. -/
+theorem unfilter_impl_eq_spec (ft : FilterType) (bpp : Nat) (hb : 1 ≤ bpp) (prev cur : Bytes)
+    (hdvd : bpp ∣ cur.length) (hprev : prev = [] ∨ prev.length = cur.length) :
+    unfilterImpl ft bpp prev cur = reconRow ft bpp prev cur :=
+  unfilterImpl_eq_spec ft bpp hb prev cur hdvd hprev
+
+/-- what `unfilter` does with a row whose length is not a multiple of `bpp` (never produced by the
+    decoder): whole pixels as specified, the trailing `len % bpp` bytes untouched (all types but
+    `Up`, which has no chunking and is covered for every length by `unfilter_impl_up`). -/
+theorem unfilter_impl_remainder (ft : FilterType) (hft : ft ≠ .up) (bpp : Nat) (hb : 1 ≤ bpp)
+    (prev cur : Bytes) (hprev : prev = [] ∨ prev.length = cur.length) :
+    unfilterImpl ft bpp prev cur
+      = reconRow ft bpp prev (cur.take (cur.length / bpp * bpp))
+        ++ cur.drop (cur.length - cur.length % bpp) :=
+  unfilterImpl_remainder ft hft bpp hb prev cur hprev
+
+/-- `Up` is byte-wise: specification for every length -/
+theorem unfilter_impl_up (bpp : Nat) (prev cur : Bytes) (hprev : prev = [] ∨ prev.length = cur.length) :
+    unfilterImpl .up bpp prev cur = reconRow .up bpp prev cur := unfilterImpl_up bpp prev cur hprev
+
+/-- `unfilter` never changes the row length (all inputs) -/
+theorem unfilter_impl_length (ft : FilterType) (bpp : Nat) (prev cur : Bytes) :
+    (unfilterImpl ft bpp prev cur).length = cur.length := unfilterImpl_length ft bpp prev cur
+
+/-- `filter_internal` (filter.rs:899-1036: leading `bpp` bytes, body over shifted slices, bitwise
+    average, `filter_paeth_fpnge`) computes exactly the specification's filtering: all five types,
+    `1 ≤ bpp ≤ len`, previous row of the same length (as at every call site). -/
+theorem filter_impl_eq_spec (ft : FilterType) (bpp : Nat) (hb : 1 ≤ bpp) (prev cur : Bytes)
+    (hle : bpp ≤ cur.length) (hprev : prev.length = cur.length) :
+    filterImpl ft bpp prev cur = filtRow ft bpp prev cur :=
+  filterImpl_eq_spec ft bpp hb prev cur hle hprev
+
+/-- the adaptive filter returns one of Sub, Up, Avg, Paeth (never `NoFilter`) together with
+    `filter_internal` of that type -/
+theorem adaptive_legal (bpp : Nat) (prev cur : Bytes) :
+    ((adaptive bpp prev cur).1 = .sub ∨ (adaptive bpp prev cur).1 = .up ∨
+      (adaptive bpp prev cur).1 = .avg ∨ (adaptive bpp prev cur).1 = .paeth) ∧
+    (adaptive bpp prev cur).2 = filterImpl (adaptive bpp prev cur).1 bpp prev cur :=
+  Png.adaptive_legal bpp prev cur
+
+/-- whatever the adaptive filter emits, the specification's reconstruction with the returned type
+    gives back the raw row -/
+theorem adaptive_reversible (bpp : Nat) (hb : 1 ≤ bpp) (prev cur : Bytes) (hle : bpp ≤ cur.length)
+    (hprev : prev.length = cur.length) :
+    reconRow (adaptive bpp prev cur).1 bpp prev (adaptive bpp prev cur).2 = cur :=
+  Png.adaptive_reversible bpp hb prev cur hle hprev
+
+/-- the adaptive choice minimises `sum_buffer` over the four candidates and, among minimisers, is
+    the last in the order Sub, Up, Avg, Paeth (`<=` in filter.rs:1056) -/
+theorem adaptive_choice (bpp : Nat) (prev cur : Bytes) (ft : FilterType) (hft : ft ≠ .none) :
+    sumBuffer (filterImpl (adaptive bpp prev cur).1 bpp prev cur) ≤ sumBuffer (filterImpl ft bpp prev cur) ∧
+    (sumBuffer (filterImpl ft bpp prev cur) = sumBuffer (filterImpl (adaptive bpp prev cur).1 bpp prev cur) →
+      ft.toNat ≤ (adaptive bpp prev cur).1.toNat) :=
+  Png.adaptive_choice bpp prev cur ft hft
+
+/-- `sum_buffer` = Σ |b as i8| (and ≤ 128·len, so the `u64` saturating adds never saturate) -/
+theorem sum_buffer_spec (buf : Bytes) :
+    sumBuffer buf = sumAbsSpec buf ∧ sumBuffer buf ≤ 128 * buf.length :=
+  ⟨sumBuffer_spec buf, sumBuffer_le buf⟩
+
+-- non-vacuity for the implementation-shaped theorems: hypotheses hold on non-trivial rows and the
+-- two sides are non-trivial values
+example : (3 ∣ ([9, 8, 7, 6, 5, 4] : Bytes).length) ∧
+    unfilterImpl .paeth 3 [1, 2, 3, 250, 251, 252] [9, 8, 7, 6, 5, 4] = [10, 10, 10, 0, 0, 0] ∧
+    reconRow .paeth 3 [1, 2, 3, 250, 251, 252] [9, 8, 7, 6, 5, 4] = [10, 10, 10, 0, 0, 0] := by decide
+example : unfilterImpl .avg 1 [] [200, 100, 50] = reconRow .avg 1 [] [200, 100, 50] ∧
+    reconRow .avg 1 [] [200, 100, 50] = [200, 200, 150] := by decide
+-- a row of 5 bytes with bpp = 2: the last byte is left as it was
+example : unfilterImpl .sub 2 [] [1, 2, 3, 4, 77] = [1, 2, 4, 6, 77] ∧
+    reconRow .sub 2 [] [1, 2, 3, 4, 77] = [1, 2, 4, 6, 81] := by decide
+example : filterImpl .avg 2 [10, 20, 30, 40] [1, 2, 250, 251] = filtRow .avg 2 [10, 20, 30, 40] [1, 2, 250, 251] ∧
+    filtRow .avg 2 [10, 20, 30, 40] [1, 2, 250, 251] = [252, 248, 235, 230] := by decide
+-- ties go to the later candidate: an all-zero row over an all-zero row filters to zeros under all
+-- four types and Paeth is returned; here Avg wins strictly
+example : adaptive 1 [0, 0, 0, 0] [0, 0, 0, 0] = (.paeth, [0, 0, 0, 0]) := by decide
+example : adaptive 1 [10, 60, 20, 90] [12, 50, 30, 70] = (.avg, [7, 14, 251, 10]) := by decide
+example : adaptive 2 [10, 60, 20, 90, 7, 7] [12, 50, 30, 70, 9, 200] = (.up, [2, 246, 10, 236, 2, 193]) := by decide
+example : sumBuffer [252, 4, 128, 0] = 4 + 4 + 128 + 0 ∧ sumAbsSpec [252, 4, 128, 0] = 136 := by decide
 
 end Png.C14
